@@ -208,6 +208,68 @@ def container_kinds(func, var_names=None):
     return out
 
 
+def _iter_of(node):
+    """The iterable an extend/+= argument runs over: a generator/list comprehension's first iter, or the expression itself."""
+    if isinstance(node, (ast.GeneratorExp, ast.ListComp)):
+        return node.generators[0].iter
+    return node
+
+
+def _walk_explicit_stack(m, r, wk):
+    """Second recognised shape: an explicit LIFO stack.  Pre-order in list order requires that every sequence pushed onto
+    the stack is pushed reversed; a FIFO queue (pop(0)/popleft) would be breadth-first."""
+    pops = [c for c in A.calls(wk.node) if isinstance(c.func, ast.Attribute) and c.func.attr in ("pop", "popleft") and isinstance(c.func.value, ast.Name)]
+    if len(pops) != 1:
+        r.error("walk: traversal shape not recognised (neither recursive nor a single explicit stack)")
+        return r
+    stack = pops[0].func.value.id
+    r.instances += 1
+    if pops[0].func.attr == "popleft" or pops[0].args:
+        r.ob(False)
+        r.fail("walk|fifo", "walk takes nodes from the front of its work list: that is a breadth-first traversal, nodes are not yielded in "
+               "source order", m.loc(wk, pops[0]))
+        return r
+    pushes = []
+    for n in A.body_nodes(wk.node):
+        if isinstance(n, ast.Call) and isinstance(n.func, ast.Attribute) and n.func.attr in ("extend", "append") and A.text(n.func.value) == stack and n.args:
+            pushes.append((n, n.args[0], n.func.attr))
+        if isinstance(n, ast.AugAssign) and A.text(n.target) == stack:
+            pushes.append((n, n.value, "extend"))
+        if isinstance(n, ast.Assign) and A.text(n.targets[0]) == stack and isinstance(n.value, (ast.ListComp, ast.GeneratorExp, ast.Call, ast.List)):
+            pushes.append((n, n.value, "init"))
+    bad = None
+    kinds = set()
+    children = False
+    for node, arg, how in pushes:
+        if how == "append":
+            continue
+        it = _iter_of(arg)
+        if isinstance(it, ast.Call) and A.dotted(it.func) in ("list", "tuple") and it.args:
+            it = _iter_of(it.args[0])
+        rev = isinstance(it, ast.Call) and A.dotted(it.func) == "reversed"
+        inner = it.args[0] if rev and it.args else it
+        if A.text(inner).endswith(".children"):
+            children = True
+        if not rev and not (isinstance(it, ast.List) and len(it.elts) <= 1):
+            bad = (node, A.text(inner))
+    P = A.parents(wk.node)
+    for var, lst in container_kinds(wk.node).items():
+        for ks, node in lst:
+            if var != "node_list":
+                kinds |= ks
+    r.ob(bad is None, "walk uses an explicit LIFO stack `%s`; every pushed sequence is reversed" % stack)
+    if bad:
+        r.fail("walk|stack-order|%s" % bad[1][:30], "walk pushes `%s` onto its LIFO stack without reversing it: those components are visited "
+               "last-to-first, so nodes are not yielded in source order" % bad[1], m.loc(wk, bad[0]))
+    r.instances += 1
+    ok = {"list", "tuple"} <= kinds and children
+    r.ob(ok, "walk (stack form) descends into child.children and into %s components" % sorted(kinds))
+    if not ok:
+        r.fail("walk|kinds|%s" % ",".join(sorted(kinds)), "walk (stack form) does not descend into node children and both list and tuple "
+               "components (found: children=%s, kinds=%s)" % (children, sorted(kinds)), m.loc(wk))
+    return r
+
+
 def r4_walk(m):
     r = RuleResult("C10.R4", "_set_parent and walk descend into the same container kinds (list and tuple), fully and in order")
     r.floor = 2
@@ -246,9 +308,7 @@ def r4_walk(m):
     # ---- walk
     recursive = any((A.dotted(c.func) or "") == "walk" for c in A.calls(wk.node))
     if not recursive:
-        r.error("walk: traversal shape not recognised (walk is no longer a recursive function); "
-                "its container kinds and visiting order cannot be decided")
-        return r
+        return _walk_explicit_stack(m, r, wk)
     r.instances += 1
     wkinds = set()
     for var, lst in container_kinds(wk.node).items():
